@@ -13,9 +13,9 @@ CHECKS = {
    note="bounded (versions<=6, seqs<=3, batches<=2); one actor at a time; known finding S2 region exempted (StaleV); trusted: TLC, projection in harness/src/common.rs, SQLite+cr-sqlite"),
  "C04": dict(
    level="model_checking", engine="syncneeds", design="§6/C04",
-   technique="TLA+ spec SyncNeeds.tla checked by TLC over all pairs of advertised states + every pair replayed through the real compute_available_needs",
-   text="TLC enumerates every pair of well-formed advertised sync states for an actor within the bounds (heads<=4, any need set, partial versions with any missing-seq set) and checks completeness / within-head / not-self / seq-soundness on the transcribed algorithm; each enumerated pair is run through the real function whose normalised output must equal the specification's and satisfy the same formulas.",
-   note="bounded heads/seqs; the function handles actors independently (read from code) so one actor x {self, foreign} is the whole space; client-side request chunking/de-duplication in parallel_sync not covered"),
+   technique="TLA+ specs SyncNeeds.tla (all pairs of advertised states, every pair replayed through the real compute_available_needs) and SyncClient.tla (request scheduler of parallel_sync) checked by TLC; real sync rounds of a client against two servers over QUIC, the requests the servers read judged by the formulas and compared with the assignments the specification produces",
+   text="TLC enumerates every pair of well-formed advertised sync states for an actor within the bounds (heads<=4, any need set, partial versions with any missing-seq set) and checks completeness / within-head / not-self / seq-soundness on the transcribed algorithm; each enumerated pair is run through the real function whose normalised output must equal the specification's and satisfy the same formulas. SyncClient.tla (round-robin over peers, Drain needs per turn from the back of each queue, de-duplication across peers) is checked for only-advertised / no-duplicate / everything-requested / termination over all queues of disjoint needs within the bounds and both peer orders; seeded real rounds (three real agents, foreign versions incl. a multi-sequence one spread at random) record every request each server reads: the same formulas are evaluated on them and, for rounds whose queues fit one turn, the real assignment must be one the specification produces for exactly these needs.",
+   note="bounded heads/seqs; the function handles actors independently (read from code) so one actor x {self, foreign} is the whole space; scheduler bound on two servers over loopback QUIC; choice of peers for a round is C18's"),
  "C08": dict(
    level="model_checking", engine="chunker", design="§6/C08",
    technique="TLA+ specs Chunker.tla / ChunkRange.tla checked by TLC over all inputs and limit schedules + every behaviour replayed on the real ChunkedChanges / chunk_range",
